@@ -177,7 +177,7 @@ class Canon(ast.NodeTransformer):
 
     def _hit(self, new, old):
         self.count += 1
-        for a in ("_def_id", "_iter_of", "_iter_src", "_iter_epoch", "_phi", "_tuple_elt"):
+        for a in ("_def_id", "_iter_of", "_iter_src", "_iter_epoch", "_phi", "_tuple_elt", "_tuple_len"):
             if hasattr(old, a) and not hasattr(new, a):
                 setattr(new, a, getattr(old, a))
         return ast.copy_location(new, old)
